@@ -76,3 +76,51 @@ package snapshot
 //@   ensures 0 <= n && n <= len(p) && n <= blen(old(r.rest))
 //@   ensures bytesOf(p[:n]) == bsub(old(r.rest), 0, n) && r.rest == bsub(old(r.rest), n, blen(old(r.rest)) - n)
 //@   modifies r.rest, elems(p)
+
+// ---------------------------------------------------------------- chunk transport (C18)
+
+//@ import rate "golang.org/x/time/rate"
+//@ import context "context"
+// A gRPC stream as the sequence of messages it carries. Receiving side: message k of the wire carries
+// data rdata[k] (a proto3 bytes field: absent on the wire when empty). The registered codec decodes
+// with merge semantics (UnmarshalVTUnsafe): a field absent on the wire leaves the receiving object's
+// previous value in place - so a recycled object must be reset before it is received into.
+//@ ghostfield any.nrecv Int
+//@ ghostfield any.rdata map[Int]Bytes
+//@ iface regattapb.Snapshot_StreamClient.RecvMsg<*regattapb.SnapshotChunk>
+//@   assumed
+//@   params st, m
+//@   results err
+//@   ensures err == nil ==> st.nrecv == old(st.nrecv) + 1 && bytesOf(asType(m, *regattapb.SnapshotChunk).Data) == (blen(st.rdata[old(st.nrecv)]) > 0 ? st.rdata[old(st.nrecv)] : old(bytesOf(asType(m, *regattapb.SnapshotChunk).Data))) && (blen(st.rdata[old(st.nrecv)]) > 0 ==> asType(m, *regattapb.SnapshotChunk).Len == blen(st.rdata[old(st.nrecv)]))
+//@   ensures err != nil ==> st.nrecv == old(st.nrecv)
+//@   ensures forall k Int :: st.rdata[k] == old(st.rdata[k])
+//@   modifies st.nrecv, fields(asType(m, *regattapb.SnapshotChunk)), allelems(uint8)
+//@ iface regattapb.Snapshot_StreamClient.Context
+//@   assumed
+//@   modifies nothing
+//@ func rate.(*Limiter).WaitN
+//@   assumed
+//@   modifies nothing
+//@ func regattapb.SnapshotChunkFromVTPool
+//@   assumed
+//@   ensures result != nil && fresh(result) && len(result.Data) == 0 && result.Len == 0
+//@   modifies nothing
+//@ func regattapb.(*SnapshotChunk).ReturnToVTPool
+//@   assumed
+//@   modifies nothing
+//@ func regattapb.(*SnapshotChunk).ResetVT
+//@   assumed
+//@   params m
+//@   ensures len(m.Data) == 0 && m.Len == 0
+//@   modifies fields(m)
+
+// WriteTo: every received chunk's data is written to w as one message, in order, nothing else
+//@ func (Reader).WriteTo
+//@   params s, w
+//@   results n, err
+//@   requires s.Stream != nil && w != nil
+//@   ensures [C18.chunk.relay] err == nil ==> w.nmsg - old(w.nmsg) == s.Stream.nrecv - old(s.Stream.nrecv) && forall k Int :: 0 <= k && k < s.Stream.nrecv - old(s.Stream.nrecv) ==> w.msg[old(w.nmsg) + k] == s.Stream.rdata[old(s.Stream.nrecv) + k]
+//@   modifies s.Stream.nrecv, w.sdata, w.slen, w.nmsg, w.msg, allelems(uint8)
+//@   loop 0 invariant chunk != nil && fresh(chunk) && w.nmsg - old(w.nmsg) == s.Stream.nrecv - old(s.Stream.nrecv) && w.nmsg >= old(w.nmsg)
+//@   loop 0 invariant forall k Int :: 0 <= k && k < s.Stream.nrecv - old(s.Stream.nrecv) ==> w.msg[old(w.nmsg) + k] == s.Stream.rdata[old(s.Stream.nrecv) + k]
+//@   loop 0 invariant forall k Int :: s.Stream.rdata[k] == old(s.Stream.rdata[k])
